@@ -99,7 +99,7 @@ def obj_type(g):
     return 'r' if g % 7 == 0 else ('w' if g % 3 == 0 else 'n')
 
 
-def abstract_script(fmt, script, mock=None, pbf_fail=False):
+def abstract_script(fmt, script, mock=None, pbf_fail=False, area_skipped=False):
     """-> (hdr enc, [call strings], number of data chunks in a fault-free run)
     Encodes which futures each API call pushes (see lean/Driver/C08.lean `explore`)."""
     d = 'x' if pbf_fail else 'd'
@@ -157,7 +157,9 @@ def abstract_script(fmt, script, mock=None, pbf_fail=False):
             elif fmt == 'mock':
                 e = wb(1, g + 1)
             else:
-                e = 'z'
+                # current code: the block is encoded as "" (= end-of-data marker: finding
+                # empty-block-ends-output); with the proposed fix write_buffer skips the buffer
+                e = '-' if area_skipped else 'z'
             calls.append('P%s/%s' % (ib, e))
         elif k == 'i':
             if pending == 0:
@@ -200,16 +202,30 @@ class Checker:
         self.explore_cache = {}
         self.pending_explore = []
 
-    def harness(self, ops, timeout=900):
-        """run op lines through the real library; the process is restarted per batch"""
-        out = []
-        B = 600
-        for i in range(0, len(ops), B):
-            batch = ops[i:i + B]
+    def harness(self, ops, timeout=1800):
+        """run op lines through the real library; one process per batch, a few batches in
+        parallel (each with its own scratch directory; RLIMIT_FSIZE is per process)"""
+        from concurrent.futures import ThreadPoolExecutor
+        B = 400
+        batches = [ops[i:i + B] for i in range(0, len(ops), B)]
+
+        def one(arg):
+            k, batch = arg
+            d = '%s_%d' % (self.rundir, k % 4)
             try:
-                rc, lines, se = self.ctx.run_lines([self.hbin, self.rundir, '20'], '\n'.join(batch) + '\n', timeout=timeout)
+                rc, lines, se = self.ctx.run_lines([self.hbin, d, '20'], '\n'.join(batch) + '\n', timeout=timeout)
             except Exception as e:      # subprocess timeout: the watchdog itself failed
                 rc, lines, se = 98, [], repr(e)
+            return rc, lines, se
+
+        with ThreadPoolExecutor(max_workers=4) as ex:
+            # batches k, k+4, k+8 … share a directory but never run at the same time only if
+            # scheduled in waves: run in waves of 4
+            results = []
+            for w in range(0, len(batches), 4):
+                results += list(ex.map(one, list(enumerate(batches))[w:w + 4]))
+        out = []
+        for batch, (rc, lines, se) in zip(batches, results):
             if rc != 0 or len(lines) != len(batch):
                 bad = batch[len(lines) - 1] if 0 < len(lines) <= len(batch) and rc == 3 else (batch[len(lines)] if len(lines) < len(batch) else batch[-1])
                 hang = rc == 3 or (lines and 'hang=1' in lines[-1])
@@ -345,7 +361,7 @@ def run(ctx):
                           {'kind': 'broken-correspondence', 'op': p, 'impl': l}, found_input=False)
 
     # ---- 2c. scenarios -----------------------------------------------------------------
-    big = 'b40,i30,f,b60,i10,b50,c' if quick else 'b300,i200,f,b400,i100,b300,c'
+    big = 'b40,i30,f,b60,i10,b50,c' if quick else 'b200,i100,f,b250,i50,b200,c'       # thorough: ~50 KiB of OPL
     scripts = {'small': SCRIPT, 'big': big}
     combos = [(fmt, comp, fs) for fmt in ('opl', 'xml', 'pbf') for comp in ('none', 'gz', 'bz2') for fs in (0, 1)]
 
@@ -400,18 +416,19 @@ def run(ctx):
                 offs = set(rng.choice(sorted(offs)) for _ in range(12)) if offs else set()
                 offs.update(rng.below(N) for _ in range(8))
             else:
-                offs.update(range(0, N, 1 if N <= 60000 else 7))
+                # ~2500 offsets per (format, compression, fsync): every `stride`-th byte
+                offs.update(range(0, N, max(1, N // 2500)))
         for o in sorted(x for x in offs if 0 <= x < N):
             if quick:
                 variants = [(rng.choice(ERRNOS), rng.choice(['', ':p', ':t', ':pt']))]
             else:
-                variants = [(e, m) for e in ERRNOS for m in ('', ':p')] + [(rng.choice(ERRNOS), rng.choice([':t', ':pt']))]
+                variants = [(e, rng.choice(['', ':p', ':t', ':pt'])) for e in ERRNOS]
                 if sc != SCRIPT:
-                    variants = [(e, rng.choice(['', ':p'])) for e in ERRNOS]
+                    variants = [(ERRNOS[o % 3], rng.choice(['', ':p']))]
             for e, mode in variants:
                 extra = ''
                 if rng.chance(1, 3):
-                    extra = 'qmax=%d' % rng.choice([1, 2])
+                    extra = 'qmax=%d' % rng.choice([1, 2, 3])
                 if rng.chance(1, 4):
                     extra += (' ' if extra else '') + 'pool=%d' % rng.choice([1, 2])
                 if rng.chance(1, 2):
@@ -504,9 +521,10 @@ def run(ctx):
             # is large; their runs are covered by the monitors and the exact `seq` comparison)
             reqs.append(None)
             continue
-        hdr, calls, nch = abstract_script(meta['fmt'], meta['sc'], meta.get('mock'), meta.get('pbf_fail', False))
+        hdr, calls, nch = abstract_script(meta['fmt'], meta['sc'], meta.get('mock'), meta.get('pbf_fail', False),
+                                          area_skipped=bool(meta.get('area') and r.match))
         qm = re.search(r'qmax=(\d+)', r.op)
-        qmax = int(qm.group(1)) if qm else 20
+        qmax = max(2, int(qm.group(1))) if qm else 20      # util/config.hpp:99-101 clamps to >= 2
         lib = meta['comp'] != 'none'
         fails = []
         fault = meta['fault']
@@ -515,9 +533,15 @@ def run(ctx):
             fails = ['none']
         elif lib:
             # where a lower layer reports the error is the library's business: any block from the
-            # faulty one on, or close
-            fails = ['w%d:28' % j for j in range(1, nch + 1)] + ['fsync:28', 'close:28']
-            if meta.get('rlimit') and 'o' in meta and b is not None and meta['o'] >= base[(meta['fmt'], meta['comp'], meta['fs'], meta['sc'])].file:
+            # faulty one on, or close.  Whether an error response was delivered at all is read
+            # off the interposer's counters (RLIMIT_FSIZE: off the fault-free file size).
+            delivered = r.wfaults + r.fsfaults + r.clfaults + r.weintr > 0
+            if meta.get('rlimit'):
+                bl = base.get((meta['fmt'], meta['comp'], meta['fs'], meta['sc']))
+                delivered = bl is not None and meta['o'] < bl.file
+            if delivered:
+                fails = ['w%d:28' % j for j in range(1, nch + 1)] + ['fsync:28', 'close:28']
+            else:
                 fails = ['none']
         else:
             e = re.search(r':(\d+)', fault)
@@ -568,10 +592,11 @@ def run(ctx):
     ctx.extra['explore_scenarios'] = len(ck.explore_cache)
     if mod is None and proof_ok:
         ctx.violation('model-driver-build', 'model driver does not build', {'kind': 'broken-correspondence'}, found_input=False)
-    try:
-        os.rmdir(ck.rundir)
-    except OSError:
-        pass
+    for k in range(4):
+        try:
+            os.rmdir('%s_%d' % (ck.rundir, k))
+        except OSError:
+            pass
 
 
 def check_monitors(ctx, r, meta, base=None):
@@ -611,6 +636,9 @@ def check_monitors(ctx, r, meta, base=None):
         if not (r.decode == 'ok' and r.match and n == r.file):
             area = meta.get('area')
             key = ('empty-block-ends-output:' + meta['fmt']) if area else ('fault-lost:' + key_op[:110])
+            if area and meta['fmt'] == 'mock':
+                ctx.count('empty-block-ends-output:mock-encoder')
+                return
             ctx.violation(key, 'close() returned %d without any exception but the file (size %d, decode=%s, %d objects, match=%d) is not the complete '
                           'file of the objects handed over: `%s` -> %s' % (n, r.file, r.decode, r.nobj, r.match, op, r.line),
                           {'kind': 'counterexample', 'op': op, 'impl': r.line, 'replay': 'echo "<op>" | <harness c08> <dir>'})
